@@ -314,11 +314,22 @@ class AsyncScope(_Scope):
                      z3.Implies(entered, V.bval(st.get(tg, "$tg_exited"))))
             st.check("C06-P2:enter-failed:task-group-was-awaited-before-leaving",
                      z3.Implies(entered, V.bval(st.get(tg, "$tg_exited"))))
+            tge0 = [e for e in st.events if e[0] == "tg-exit"]
             if any(c for _, _, c in self.raised):
                 st.check("C07-P5:enter-cancelled:the-task-group-is-exited-so-spawned-tasks-are-cancelled(T-TG)",
                          z3.Implies(entered, V.bval(st.get(tg, "$tg_exited"))))
+                # T-TG aborts the members only when the group is left *with an exception*
+                st.check("C07-P5:enter-cancelled:the-task-group-is-left-with-the-failure(tasks-spawned-while-entering-are-cancelled,-not-awaited)",
+                         z3.BoolVal(len(tge0) == 1) if len(tge0) != 1 else z3.Not(V.is_none(tge0[0][2])))
+            st.check("C06-P2:enter-failed:the-task-group-is-left-with-the-failure(tasks-spawned-while-entering-do-not-keep-the-scope-open)",
+                     z3.BoolVal(len(tge0) == 1) if len(tge0) != 1 else z3.Not(V.is_none(tge0[0][2])))
             st.check("C07-P2:enter:a-cancellation-is-not-swallowed",
                      z3.BoolVal(True) if not any(c for _, _, c in self.raised) else is_exc(it, pr.val, "CancelledError"))
+            # the scope's metrics were registered under the enclosing scope when the object was made: a block that failed to
+            # enter has been left for good, so they are finished (once) - otherwise no enclosing scope ever completes
+            fin0 = [e for e in st.events if e[0] == "metrics" and e[1].endswith("_finish")]
+            st.check("C09-P9:enter-failed:the-scope's-metrics-are-finished-exactly-once(the-enclosing-scopes-can-still-complete)",
+                     z3.BoolVal(len(fin0) == 1))
             st.check("C08-P5:enter:disposables-entered-at-most-once", z3.BoolVal(g.get("disp_entered", 0) <= 1))
             st.check("canary", z3.BoolVal(False), kind="canary")
             return
@@ -352,9 +363,14 @@ class AsyncScope(_Scope):
         tg = self.the_group(it)
         st.check("C06-P2:task-group-exit-was-awaited-on-this-path", V.bval(st.get(tg, "$tg_exited")))
         tge = [e for e in st.events if e[0] == "tg-exit"]
+        # the group learns how the block ended: the body's own exception details - or, when the body ended normally and the
+        # task was cancelled while the disposables were exiting, that cancellation (either way T-TG aborts the members)
+        dcancel = [r[1] for r in self.raised if r[0] == "disposables-exit"]       # (a cleanup may itself raise a CancelledError)
+        same_as_body = z3.BoolVal(False) if len(tge) != 1 else z3.And(tge[0][2] == et, tge[0][3] == ev_, tge[0][4] == tb)
+        disposing_cancel = z3.BoolVal(False) if (len(tge) != 1 or not dcancel) else \
+            z3.And(V.is_none(ev_), tge[0][3] == dcancel[0], is_exc(it, dcancel[0], "CancelledError"), z3.Not(V.is_none(tge[0][2])))
         st.check("C06-P2:task-group-received-the-body-exception-details",
-                 z3.BoolVal(len(tge) == 1) if len(tge) != 1 else
-                 z3.And(tge[0][2] == et, tge[0][3] == ev_, tge[0][4] == tb))
+                 z3.BoolVal(len(tge) == 1) if len(tge) != 1 else z3.Or(same_as_body, disposing_cancel))
         if self.disp is not None:
             st.check("C08-P5:disposables-exited-exactly-once-after-the-body", z3.BoolVal(g.get("disp_exited", 0) == 1))
             a = g.get("disp_exit_args")
@@ -367,7 +383,13 @@ class AsyncScope(_Scope):
         if cancels or (it.kind(ev_) == "ref"):
             st.check("C07-P5:exit:the-task-group-is-exited-with-the-failure-so-spawned-tasks-are-cancelled(T-TG)",
                      z3.And(V.bval(st.get(tg, "$tg_exited")),
-                            z3.BoolVal(len(tge) == 1) if len(tge) != 1 else tge[0][3] == ev_))
+                            z3.BoolVal(len(tge) == 1) if len(tge) != 1 else
+                            z3.If(V.is_none(ev_), z3.BoolVal(True), tge[0][3] == ev_)))
+        if any(r[0] == "disposables-exit" and r[2] for r in self.raised):
+            # the victim was cancelled while the disposables were exiting: "the tasks it spawned in those scopes are cancelled
+            # too" - by T-TG the group aborts its members only when it is left with an exception
+            st.check("C07-P5:exit:a-cancellation-during-disposing-leaves-the-task-group-with-a-failure(spawned-tasks-are-cancelled,-not-awaited-to-completion)",
+                     z3.BoolVal(len(tge) == 1) if len(tge) != 1 else z3.Not(V.is_none(tge[0][2])))
         if exc is None:
             st.check("C02-P3:does-not-suppress-the-body-exception", z3.Not(it.truthy(ret)))
             st.check("C08-P4:a-disposable-cleanup-error-is-not-dropped-by-the-scope",
@@ -480,6 +502,8 @@ class TaskGroupExit(_Scope):
             self.vars_restored(it, "P1:task-group-exit")
             st.check("C07-P1:only-a-cancellation-that-is-not-the-bodys-own-escapes-the-task-group-exit",
                      z3.And(is_exc(it, pr.val, "CancelledError"), pr.val != ev_))
+            st.check("C02-P3:only-a-foreign-cancellation-escapes-the-task-group-exit(task-errors-never-replace-the-bodys-outcome)",
+                     z3.And(is_exc(it, pr.val, "CancelledError"), pr.val != ev_))
             st.check("canary", z3.BoolVal(False), kind="canary")
             return
         st.labels.append("exit:return")
@@ -491,10 +515,13 @@ class TaskGroupExit(_Scope):
         st.check("canary", z3.BoolVal(False), kind="canary")
 
 
-def variant(base, prop: str, prefixes: tuple):
+def variant(base, prop: str, prefixes):
+    """`base` re-used as a contract of `prop`, keeping the obligations whose name starts with one of `prefixes`
+    (or, when `prefixes` is callable, those it accepts)."""
+    keep = (lambda n, p=prefixes: p(n) or n == "canary") if callable(prefixes) else \
+        (lambda n, p=prefixes: n.startswith(p) or n == "canary")
     return type(prop + base.__name__, (base,), dict(
-        name=prop + "/" + base.name.split("/", 1)[1], props=(prop,),
-        keep=staticmethod(lambda n, p=prefixes: n.startswith(p) or n == "canary")))()
+        name=prop + "/" + base.name.split("/", 1)[1], props=(prop,), keep=staticmethod(keep)))()
 
 
 C02_PREFIX = ("C02-",)
